@@ -581,6 +581,9 @@ func isSyntacticallyFresh(v ssa.Value) bool {
 
 func (ex *Exec) assignableCond(st *State, ft frameTarget) Term {
 	conds := []Term{ge(ft.Obj, st.alloc0)}
+	if ft.Lo != nil && ft.Hi != nil {
+		conds = append(conds, ge(*ft.Lo, *ft.Hi)) // an empty range writes nothing
+	}
 	for _, ls := range ex.assign {
 		if ls.Fam != ft.Fam {
 			continue
